@@ -232,7 +232,7 @@ def _safety(name):
         return True
     return lab.endswith(".safety") or lab.endswith(".overflow") or lab.endswith(".div0") or lab.endswith(".decreases") or lab.endswith(".unreachable") or lab.endswith(".unwrap") or lab.endswith(".index") or lab.endswith(".loop_exit") or lab.endswith(".precondition") \
         or lab in ("SU2", "TR3s", "TR3e", "TR3o", "SB1", "SB2", "TS0", "WF1b", "XA1", "LN1", "TU1", "TU2", "SR1", "SR2", "SQ1", "SQ2", "EN1", "EN2", "EN3", "DL1", "NB1", "WS1", "IP1", "NB2") \
-        or name in ("tuple_helpers.TE1", "tuple_helpers.TM1", "tuple_helpers.TZ1", "tuple_helpers.EQ1", "tuple_helpers.EQ2", "tuple_helpers.TI1", "tuple_helpers.MB1", "literal_rows.LR2", "literal_rows.LR3", "pipeline_types.PT1", "pipeline_types.PT2", "pipeline_types.PW1", "pipeline_types.LD1", "pipeline_types.IR1", "pipeline_types.IR2", "lower_ident.LK0", "lower_ident.LK1", "lower_ident.LK2")
+        or name in ("tuple_helpers.TE1", "tuple_helpers.TM1", "tuple_helpers.TZ1", "tuple_helpers.EQ1", "tuple_helpers.EQ2", "tuple_helpers.TI1", "tuple_helpers.MB1", "literal_rows.LR2", "literal_rows.LR3", "pipeline_types.PT1", "pipeline_types.PT2", "pipeline_types.PW1", "pipeline_types.LD1", "pipeline_types.IR1", "pipeline_types.IR2", "lower_ident.LK0", "lower_ident.LK1", "lower_ident.LK2", "operator_tpl.TP4", "operator_tpl.TP4v")
 
 
 _ALL_UNITS = ["take_range", "sort_take", "split_order", "window_frame", "dialect_select", "ident_quote", "ids_names", "toposort", "rq_tables",
@@ -276,7 +276,7 @@ claim("C08",
       "sqlparser's Display (leaves doubled quotes alone - read in its source, validated by the thorough-tier sweep on SQLite) and sqlformat (white space only, given "
       "its precondition) are trusted; str::parse, str::replace and format! are uninterpreted; date/time/interval arms are not under contract.")
 
-prop("C07", ["set_ops", "limit_clause", "literals", "rel_names", "cte_define", "sql_prec", "static_eval", "positional_map", "rq_fold", "dialect_flags", "literal_rows", "sql_templates"], select={"static_eval": lambda n: n.split(".", 1)[1] in ("SE2w", "SE2i", "SE2x", "static_eval_case.safety"), "literals": lambda n: n.split(".", 1)[1] in ("EI1", "expr_of_i64.safety", "TL1i", "TL1f", "NE1", "FM1"), "sql_prec": lambda n: n.split(".", 1)[1].startswith("NP4.std_neg") or n.endswith(".safety")},
+prop("C07", ["set_ops", "limit_clause", "literals", "rel_names", "cte_define", "sql_prec", "static_eval", "positional_map", "rq_fold", "dialect_flags", "literal_rows", "sql_templates", "operator_tpl"], select={"operator_tpl": lambda n: n.split(".", 1)[1] in ("TP4", "TP4v", "operator_lookup_slice.safety", "operator_lookup_slice.unwrap"), "static_eval": lambda n: n.split(".", 1)[1] in ("SE2w", "SE2i", "SE2x", "static_eval_case.safety"), "literals": lambda n: n.split(".", 1)[1] in ("EI1", "expr_of_i64.safety", "TL1i", "TL1f", "NE1", "FM1"), "sql_prec": lambda n: n.split(".", 1)[1].startswith("NP4.std_neg") or n.endswith(".safety")},
      not_covered="scope of every table / column reference, per-dialect grammar, empty projections, relation alias uniqueness (assign_names), "
                  "which dialects besides SQLite have no bare OFFSET (MySQL, BigQuery: the handler table is assumed, not executable here)")
 claim("C07",
